@@ -406,6 +406,10 @@ def run(ctx):
         b = fn.body
         is_export = fn.module.endswith('array')
         props = EXPORT_PROPS if is_export else TREE_PROPS
+        # attribution: a stored key handed to the caller's comparison is C20's subject (the answers do not depend on it: an
+        # expired key is still a correctly placed key); a stored value reaching the caller is what C01 / C06 / C07 are about
+        cmp_props = ['C20'] if not is_export else EXPORT_PROPS
+        val_props = EXPORT_PROPS if is_export else [p_ for p_ in TREE_PROPS if p_ != 'C20']
         # (i) comparison exposures
         for s in compare_sites(prog, fn):
             n_cmp += 1
@@ -416,9 +420,9 @@ def run(ctx):
                 ok = True
             sig = 'compare(%s)' % ('closure' if s['method'] == 'closure' else s['method'])
             if ok:
-                ctx.add(RULE, fn, sig, 'ok', 'stored key handed to user comparison code is gated at the operation\'s time', props, line, {'cursor': show(s['idx'], 3)})
+                ctx.add(RULE, fn, sig, 'ok', 'stored key handed to user comparison code is gated at the operation\'s time', cmp_props, line, {'cursor': show(s['idx'], 3)})
             else:
-                ctx.add(RULE, fn, sig, 'violation', 'stored key is handed to user comparison code without passing the expiry gate: ' + why, props, line, {'cursor': show(s['idx'], 3)})
+                ctx.add(RULE, fn, sig, 'violation', 'stored key is handed to user comparison code without passing the expiry gate: ' + why, cmp_props, line, {'cursor': show(s['idx'], 3)})
         # (ii) value exposures: payload reads that reach the function result or a push into a result vector
         sinks = []
         for blk, v in ret_cases(b):
@@ -454,9 +458,9 @@ def run(ctx):
                 sig = '%s(%s)' % (kind, '.'.join(fields))
                 line = span_line(x, fn.line)
                 if ok:
-                    ctx.add(RULE, fn, sig, 'ok', 'stored value reaches the caller only from a gated node', props, line, {'index': show(idx, 3)})
+                    ctx.add(RULE, fn, sig, 'ok', 'stored value reaches the caller only from a gated node', val_props, line, {'index': show(idx, 3)})
                 else:
-                    ctx.add(RULE, fn, sig, 'violation', 'stored value reaches the caller from a node that did not pass the expiry gate: ' + why, props, line, {'index': show(idx, 3)})
+                    ctx.add(RULE, fn, sig, 'violation', 'stored value reaches the caller from a node that did not pass the expiry gate: ' + why, val_props, line, {'index': show(idx, 3)})
     ctx.stat(RULE, gates=len(gates), compare_exposures=n_cmp, value_exposures=n_val)
     if len(gates) < 3:
         ctx.anchor_missing(RULE, 'expiry gates of the key tree (root/left/right)', TREE_PROPS, len(gates), 3)
